@@ -1,76 +1,127 @@
-(* C01 — Exactly one active state; enter/exit strictly paired over the whole lifetime. Theorems only.
-   Vocabulary (Proofs/MachineFrame.v, Proofs/MachineLife.v):
-     SInv s          between API calls: registry.requested is INVALID, the machine is inactive (active = INVALID) or has
-                     exactly one active state < n, the outstanding request (if any) names a state, the plan is well formed;
-     deliv w m a l   l are the events of ONE delivery of callback m to w while a is the active state: only callbacks of (w, m),
-                     each recipient (injected bases, then/before the state itself, per C15) exactly once, in order, every
-                     view reporting id_of w and control.isActive(k) = (k = a) for all k;
-     change a a' l   the lifecycle events of one call: none | exit(a) then enter(a') | reenter(a) | root enter then enter(a')
-                     | exit(a) then root exit;
-     life_shape a a' l = (a change a a' preceded by a quiet stretch: no enter/exit/reenter at all, every view shows a);
-     life_chain a0 a l = the trace l is a concatenation of life_shapes leading from a0 to a.  *)
-From Coq Require Import List Arith.
-From FFSM2 Require Import Model.TaskList Model.Plan Model.Machine Proofs.MachineFrame Proofs.MachinePlan Proofs.MachineLife Proofs.SerialProofs.
+(* C01 - Exactly one active state; enter/exit strictly paired over the whole lifetime. Theorems only. SInv s = between API calls: registry.requested is INVALID, the machine is inactive (active = INVALID) or has exactly one active state < n, the outstanding request (if any) names a state, the plan is well formed (PIc); deliv w m a l = l are the events of ONE delivery of callback m to w while a is active: only callbacks of (w, m), each recipient (injected bases and the state itself, in C15 order) exactly once, every view reporting id_of w and isActive(k) = (k = a); change a a' l = the lifecycle events of one call: none | exit(a);enter(a') | reenter(a) | root enter;enter(a') | exit(a);root exit; life_shape a a' l = a change preceded by a quiet stretch (no enter/exit/reenter at all, every view shows a); life_chain a0 a l = the trace l is a concatenation of life_shapes from a0 to a; mon = the executable lifecycle monitor of Proofs/LifeMonitor.v (an automaton over the states' own enter/exit/reenter callbacks that also checks every view's isActive bits). *)
+From Coq Require Import List Arith Bool NArith.
+From FFSM2 Require Import Model.TaskList Model.BitArray Model.BitStream Model.Plan Model.Ancestors Model.Machine
+  Proofs.BitArrayProofs Proofs.MachineFrame Proofs.MachinePlan Proofs.MachineLife Proofs.GuardProofs Proofs.CycleProofs Proofs.PlanStep
+  Proofs.SerialProofs Proofs.LogProofs Proofs.MachineTop Model.Multi Generated.InitFacts Proofs.ConstructProofs Proofs.LifeMonitor Proofs.ActivationRounds Proofs.IndexSafety.
 Import ListNotations.
 
-(* every API history from construction, every behaviour of the callbacks, every n, capacity, limit, activation mode,
-   head or no head, payload type: the state between calls is well formed and the whole trace is a chain of lifecycle shapes *)
-Theorem C01_every_history : forall (P : Type) cfg (orc : oracle P),
-  wf_cfg cfg -> wf_oracle P cfg orc -> forall lg ops,
-  ops_ok P cfg orc (construct P cfg orc lg) ops ->
-  let s := run P cfg orc lg ops in
-  SInv P cfg (PIc P cfg) s /\ life_chain P cfg INVALID (active P (co P s)) (tr P s).
-Proof.
-  intros P cfg orc Hcfg Hwf. exact (run_life P cfg orc (PIc P cfg) (PIc_ok P cfg (proj1 (proj2 Hcfg))) Hwf Hcfg).
-Qed.
+(* every API history from construction, every behaviour of the callbacks, every n <= 255, capacity, limit, activation mode, head or no head, payload type: the state between calls is well formed and the whole trace is a chain of lifecycle shapes *)
+Theorem C01_every_history :
+  forall (P : Type) (cfg : config) (orc : oracle P),
+         wf_cfg cfg ->
+         wf_oracle P cfg orc ->
+         forall (lg : bool) (ops : list (api_op P)),
+         ops_ok P cfg orc (construct P cfg orc lg) ops ->
+         let s := run P cfg orc lg ops in
+         SInv P cfg (PIc P cfg) s /\ life_chain P cfg INVALID (active P (co P s)) (tr P s).
+Proof. exact (fun P cfg orc (Hcfg : wf_cfg cfg) (Hwf : wf_oracle P cfg orc) => run_life P cfg orc (PIc P cfg) (PIc_ok P cfg (proj1 (proj2 Hcfg))) Hwf Hcfg). Qed.
 Print Assumptions C01_every_history.
 
+(* the executable lifecycle monitor accepts the trace of every history and ends in the state matching activeStateId() (for configurations whose states define enter/exit/reenter, so that the lifecycle is observable) *)
+Theorem C01_monitor_accepts_every_history :
+  forall (P : Type) (cfg : config) (orc : oracle P),
+         wf_cfg cfg ->
+         wf_oracle P cfg orc ->
+         c_def_state cfg MEnter = true ->
+         c_def_state cfg MExit = true ->
+         c_def_state cfg MReenter = true ->
+         forall (lg : bool) (ops : list (api_op P)),
+         ops_ok P cfg orc (construct P cfg orc lg) ops ->
+         exists st : lstate,
+           mon P (c_n cfg) (tr P (run P cfg orc lg ops)) LsOff = Some st /\
+           compatible (c_n cfg) st (active P (co P (run P cfg orc lg ops))).
+Proof. exact (run_accepted). Qed.
+Print Assumptions C01_monitor_accepts_every_history.
+
 (* one API call on any reachable state *)
-Theorem C01_one_call : forall (P : Type) cfg (orc : oracle P),
-  wf_cfg cfg -> wf_oracle P cfg orc -> forall s op,
-  SInv P cfg (PIc P cfg) s -> in_contract P cfg s op ->
-  let s' := fst (step P cfg orc s op) in
-  SInv P cfg (PIc P cfg) s' /\
-  exists l, tr P s' = l ++ tr P s /\ life_shape P cfg (active P (co P s)) (active P (co P s')) l.
-Proof.
-  intros P cfg orc Hcfg Hwf. exact (step_spec P cfg orc (PIc P cfg) (PIc_ok P cfg (proj1 (proj2 Hcfg))) Hwf Hcfg).
-Qed.
+Theorem C01_one_call :
+  forall (P : Type) (cfg : config) (orc : oracle P),
+         wf_cfg cfg ->
+         wf_oracle P cfg orc ->
+         forall (s : mstate P) (op : api_op P),
+         SInv P cfg (PIc P cfg) s ->
+         in_contract P cfg s op ->
+         let s' := fst (step P cfg orc s op) in
+         SInv P cfg (PIc P cfg) s' /\
+         (exists l : list (event P),
+            tr P s' = l ++ tr P s /\ life_shape P cfg (active P (co P s)) (active P (co P s')) l).
+Proof. exact (fun P cfg orc (Hcfg : wf_cfg cfg) (Hwf : wf_oracle P cfg orc) => step_spec P cfg orc (PIc P cfg) (PIc_ok P cfg (proj1 (proj2 Hcfg))) Hwf Hcfg). Qed.
 Print Assumptions C01_one_call.
 
-(* construction activates an automatic machine (root enter, then the initial or redirected state) and leaves a manual one inactive;
-   destruction of an automatic machine exits the active state and then the root *)
-Theorem C01_construct : forall (P : Type) cfg (orc : oracle P),
-  wf_cfg cfg -> wf_oracle P cfg orc -> forall lg,
-  let s := construct P cfg orc lg in
-  SInv P cfg (PIc P cfg) s /\ life_chain P cfg INVALID (active P (co P s)) (tr P s) /\
-  (c_manual cfg = false -> is_on P cfg s) /\ (c_manual cfg = true -> is_off P s).
-Proof.
-  intros P cfg orc Hcfg Hwf. exact (construct_spec P cfg orc (PIc P cfg) (PIc_ok P cfg (proj1 (proj2 Hcfg))) Hwf Hcfg).
-Qed.
+(* construction activates an automatic machine (root enter, then the initial or redirected state) and leaves a manual one inactive *)
+Theorem C01_construct :
+  forall (P : Type) (cfg : config) (orc : oracle P),
+         wf_cfg cfg ->
+         wf_oracle P cfg orc ->
+         forall lg : bool,
+         let s := construct P cfg orc lg in
+         SInv P cfg (PIc P cfg) s /\
+         life_chain P cfg INVALID (active P (co P s)) (tr P s) /\
+         (c_manual cfg = false -> is_on P cfg s) /\ (c_manual cfg = true -> is_off P s).
+Proof. exact (fun P cfg orc (Hcfg : wf_cfg cfg) (Hwf : wf_oracle P cfg orc) => construct_spec P cfg orc (PIc P cfg) (PIc_ok P cfg (proj1 (proj2 Hcfg))) Hwf Hcfg). Qed.
 Print Assumptions C01_construct.
-Theorem C01_destroy : forall (P : Type) cfg (orc : oracle P),
-  wf_cfg cfg -> wf_oracle P cfg orc -> forall s a0,
-  SInv P cfg (PIc P cfg) s -> (c_manual cfg = false -> is_on P cfg s) -> life_chain P cfg a0 (active P (co P s)) (tr P s) ->
-  let s' := destroy P cfg orc s in
-  life_chain P cfg a0 (active P (co P s')) (tr P s') /\ (c_manual cfg = false -> is_off P s').
-Proof.
-  intros P cfg orc Hcfg Hwf. exact (destroy_spec P cfg orc (PIc P cfg) (PIc_ok P cfg (proj1 (proj2 Hcfg))) Hwf).
-Qed.
+
+(* destruction of an automatic machine exits the active state and then the root *)
+Theorem C01_destroy :
+  forall (P : Type) (cfg : config) (orc : oracle P),
+         wf_cfg cfg ->
+         wf_oracle P cfg orc ->
+         forall (s : mstate P) (a0 : nat),
+         SInv P cfg (PIc P cfg) s ->
+         (c_manual cfg = false -> is_on P cfg s) ->
+         life_chain P cfg a0 (active P (co P s)) (tr P s) ->
+         let s' := destroy P cfg orc s in
+         life_chain P cfg a0 (active P (co P s')) (tr P s') /\ (c_manual cfg = false -> is_off P s').
+Proof. exact (fun P cfg orc (Hcfg : wf_cfg cfg) (Hwf : wf_oracle P cfg orc) => destroy_spec P cfg orc (PIc P cfg) (PIc_ok P cfg (proj1 (proj2 Hcfg))) Hwf). Qed.
 Print Assumptions C01_destroy.
 
-(* deactivation: exit(active) then exit(root), nothing else; reenter only to the active state: these are the constructors of [change] *)
-Theorem C01_exit_pairs : forall (P : Type) cfg (orc : oracle P),
-  wf_cfg cfg -> wf_oracle P cfg orc -> forall s a,
-  active P (co P s) = a -> a < c_n cfg -> PIc P cfg (plan P (co P s)) ->
-  let s' := final_exit P cfg orc s in
-  SInv P cfg (PIc P cfg) s' /\ active P (co P s') = INVALID /\ logger P (co P s') = logger P (co P s) /\
-  exists l, tr P s' = l ++ tr P s /\ change P cfg a INVALID l.
-Proof.
-  intros P cfg orc Hcfg Hwf. exact (final_exit_spec P cfg orc (PIc P cfg) (PIc_ok P cfg (proj1 (proj2 Hcfg))) Hwf).
-Qed.
+(* deactivation: exit(active) then exit(root), nothing else *)
+Theorem C01_exit_pairs :
+  forall (P : Type) (cfg : config) (orc : oracle P),
+         wf_cfg cfg ->
+         wf_oracle P cfg orc ->
+         forall (s : mstate P) (a : nat),
+         active P (co P s) = a ->
+         a < c_n cfg ->
+         PIc P cfg (plan P (co P s)) ->
+         let s' := final_exit P cfg orc s in
+         SInv P cfg (PIc P cfg) s' /\
+         active P (co P s') = INVALID /\
+         logger P (co P s') = logger P (co P s) /\
+         (exists l : list (event P), tr P s' = l ++ tr P s /\ change P cfg a INVALID l).
+Proof. exact (fun P cfg orc (Hcfg : wf_cfg cfg) (Hwf : wf_oracle P cfg orc) => final_exit_spec P cfg orc (PIc P cfg) (PIc_ok P cfg (proj1 (proj2 Hcfg))) Hwf). Qed.
 Print Assumptions C01_exit_pairs.
 
-(* a lifecycle change runs enter/exit/reenter callbacks only (no guard, no phase callback in between) *)
-Theorem C01_change_only_lifecycle : forall (P : Type) cfg a a' l, change P cfg a a' l -> Forall (only_life P) l.
-Proof. exact change_only_life. Qed.
+(* a lifecycle change runs enter/exit/reenter callbacks only *)
+Theorem C01_change_only_lifecycle :
+  forall (P : Type) (cfg : config) (a a' : nat) (l : list (event P)),
+         change P cfg a a' l -> Forall (only_life P) l.
+Proof. exact (change_only_life). Qed.
 Print Assumptions C01_change_only_lifecycle.
+
+(* in any accepted trace the next own lifecycle callback of a state after enter(k) is exit(k) or reenter(k) *)
+Theorem C01_after_enter_comes_exit_or_reenter :
+  forall (P : Type) (n : nat) (l3 : list (event P)) (e2 : event P) (l2 : list (event P)) 
+           (k : nat) (v : view P) (l1 : list (event P)) (st st' : lstate),
+         mon P n (l3 ++ e2 :: l2 ++ EvCb P (St k) Own MEnter v :: l1) st = Some st' ->
+         forallb (fun e : event P => negb (state_life P e)) l2 = true ->
+         state_life P e2 = true ->
+         exists v2 : view P, e2 = EvCb P (St k) Own MExit v2 \/ e2 = EvCb P (St k) Own MReenter v2.
+Proof. exact (accepted_after_enter). Qed.
+Print Assumptions C01_after_enter_comes_exit_or_reenter.
+
+Theorem C01_no_two_enters_without_exit :
+  forall (P : Type) (n : nat) (l3 : list (event P)) (k2 : nat) (v2 : view P) 
+           (l2 : list (event P)) (k1 : nat) (v1 : view P) (l1 : list (event P)) (st st' : lstate),
+         mon P n (l3 ++ EvCb P (St k2) Own MEnter v2 :: l2 ++ EvCb P (St k1) Own MEnter v1 :: l1) st = Some st' ->
+         existsb (own_exit_of P k1) l2 = true.
+Proof. exact (accepted_enter_enter). Qed.
+Print Assumptions C01_no_two_enters_without_exit.
+
+Theorem C01_views_show_the_entered_state :
+  forall (P : Type) (n : nat) (l2 : list (event P)) (k : nat) (m : method) (v : view P)
+           (l1 : list (event P)) (st st' : lstate),
+         mon P n (l2 ++ EvCb P (St k) Own m v :: l1) st = Some st' -> is_life m = true -> v_act P v = bits n k.
+Proof. exact (accepted_life_view). Qed.
+Print Assumptions C01_views_show_the_entered_state.
+
